@@ -15,6 +15,8 @@ fn write_field(
         write_comments(w, 1, &field.comments)?;
 
         let type_name = match field.type_override(SupportedLanguage::Go) {
+            // An override replaces the translated type, not the fact that the field is optional.
+            Some(type_override) if field.ty.is_optional() => format!("*{}", type_override),
             Some(type_override) => type_override.to_owned(),
             None => self
                 .format_type(&field.ty, generic_types)
